@@ -126,7 +126,7 @@ def run_case(case, sb):
     raised = res["raised"] is not None
     if raised != exp["raises"]:
         problems.append({"raises_expected": exp["raises"], "observed": res["raised"]})
-    err_lines = sorted(set(e[0] for e in res["errors"]), key=lambda v: (str(type(v)), str(v)))
+    err_lines = sorted(set(e[0] for e in res["errors"]), key=lambda v: (0, v, "") if isinstance(v, int) else (1, 0, str(v)))
     if err_lines != exp["error_lines"]:
         problems.append({"error_lines_expected": exp["error_lines"], "observed": res["errors"]})
     if res["is_valid"] != exp["is_valid"]:
